@@ -1243,3 +1243,25 @@ def gen_stats_unit_table():
            f'def calculateStatsHonoursUnit : Bool := {"true" if honours else "false"}\n\n'
            'end PhotVerif.Gen.StatsUnits\n')
     return 'StatsUnits.lean', src, out
+
+# ---------------------------------------------------------------- supplied positions -> pixels in the star finders (C03 / C14)
+
+def gen_xycoords_rounding():
+    '''the expression that turns `xycoords` into the pixel a measurement cut-out is centred on, in DAOStarFinder and IRAFStarFinder'''
+    out_rows, src_all = [], ''
+    for f, cls in (('photutils/detection/daofinder.py', 'DAOStarFinder'), ('photutils/detection/irafstarfinder.py', 'IRAFStarFinder')):
+        src = open(os.path.join(REPO, f)).read()
+        src_all += src
+        m = _cls_method(ast.parse(src), cls, '_get_raw_catalog')
+        asg = [x for x in ast.walk(m) if isinstance(x, ast.Assign) and len(x.targets) == 1 and isinstance(x.targets[0], ast.Name)
+               and x.targets[0].id == 'xypos' and 'xycoords' in ast.unparse(x.value)]
+        if len(asg) != 1:
+            raise Unsupported(f'{cls}._get_raw_catalog: expected exactly one `xypos = <expression of self.xycoords>`')
+        out_rows.append((cls, ast.unparse(asg[0].value)))
+    out = ('/- GENERATED by tools/extract_tables.py from photutils/detection/{daofinder,irafstarfinder}.py '
+           f'(sha256/16 {sha(src_all)}). DO NOT EDIT. -/\n'
+           'import PhotVerif.Model.Prelude\nnamespace PhotVerif.Gen.XyRounding\n\n'
+           '/-- (finder, expression that maps the supplied positions to pixel indices) -/\n'
+           'def rows : List (String × String) := [' + ', '.join(f'("{a}", "{b_}")' for a, b_ in out_rows) + ']\n\n'
+           'end PhotVerif.Gen.XyRounding\n')
+    return 'XyRounding.lean', src_all, out
